@@ -9,6 +9,7 @@ from infra import LEAN
 
 # which properties' proofs rest on the behaviour of which C function (by name fragment, first match wins per fragment)
 OWNERS = [
+    (r"utils_convert|parse_string", ["C14"]),
     (r"group4|ct_init|ct_get", ["C12"]),
     (r"group1|ecc_lookup", ["C11", "C09", "C04"]),
     (r"group2", ["C08", "C02", "C04", "C06", "C07"]),
